@@ -94,8 +94,7 @@ Judgeable(S, ev, r) ==
                   "DictPut", "DictGet"}
     /\ ev.op # "New" => ValidIdx(S, ev.i)
     \* whether an expression can be pickled at all is C17's business
-    /\ (ev.op = "New" /\ ev.md # "") => r.k = "new"
-    /\ (ev.op = "Copy" /\ ev.md = "pickle") => r.k = "new"
+    /\ r.k # "nopickle"
     /\ ev.op \in {"Eq", "Ne", "Replace"} => ValidIdx(S, ev.j)
     /\ (ev.op = "SetAttr" /\ ev.j # 0) => ValidIdx(S, ev.j)
     /\ IF Creates(ev) /\ r.k = "new" THEN Len(r.proj) = Len(S.objs) + 1
